@@ -28,6 +28,8 @@ import (
 //   conc session <rounds> <writers>          concurrent Write/Resume/Commit on one upload session: a committed blob matches its digest
 //   conc mixed <goroutines> <ops> <seed> <server 0|1>   random operations over a small key space (race detection, no panics)
 //   conc lin <seed> <clients> <ops each>     a small concurrent history checked for linearizability against the Lean model
+//   conc immtags <rounds> <attackers> <readers> <seed>   immutable-tags mode (C14, "there also under concurrency"): a tag, its
+//                                            manifest and its blobs under concurrent attempts to move / delete them
 //
 // Outputs are "ok" or a description of the failure; `conc lin` prints the recorded history
 // (one event per op: invocation and response order, the op as a `mem` line, its result) and
@@ -64,6 +66,8 @@ func (*c08) Impl(c Case) []string {
 				return c08DualCommit(atoi(t[2]))
 			case "selfcopy":
 				return c08SelfCopy(atoi(t[2]))
+			case "immtags":
+				return c08ImmTags(atoi(t[2]), atoi(t[3]), atoi(t[4]), uint64(atoi(t[5])))
 			case "mixed":
 				return c08Mixed(atoi(t[2]), atoi(t[3]), uint64(atoi(t[4])), t[5] == "1")
 			case "lin":
@@ -627,6 +631,184 @@ func c08Mixed(goroutines, ops int, seed uint64, server bool) string {
 	return "ok"
 }
 
+// c08ImmTags: immutable-tags mode under concurrency (C14's clause "there also under concurrency"; the theorems over every
+// schedule are Props/C14.lean `tag_stable_arun`, `tagged_manifest_kept_arun`, `reachable_blob_kept_arun`).
+// One client has pushed the image manifest A (config + two layers) with the tag v1. Then `attackers` goroutines, each in
+// an order drawn from the seed, try to push another manifest B under v1, to delete A by digest, to delete the tag, to
+// delete A's blobs, to push A again under v1 (allowed: same content), to push B untagged and under another tag, and
+// to commit chunked uploads (the two-section Commit) of a layer's bytes and of fresh bytes, while `readers` goroutines
+// ResolveTag / GetTag v1 and GetBlob the layers. Oracle:
+//   * every read of v1 answers A's descriptor (and GetTag A's bytes): a tag once bound resolves to the same digest and bytes;
+//   * every read of a blob of A, and of A by digest, succeeds with the right bytes: what the tag references stays retrievable;
+//   * no attack on v1 / A / A's blobs is accepted; pushing A again under v1 answers A's descriptor (every state of the
+//     execution has v1 -> A, and in each such state the sequential registry answers just that: a refusal has no linearization);
+//   * at the end v1 still resolves to A and everything is still there.
+func c08ImmTags(rounds, attackers, readers int, seed uint64) string {
+	ctx := context.Background()
+	img := "application/vnd.oci.image.manifest.v1+json"
+	type bl struct {
+		data []byte
+		desc ociregistry.Descriptor
+	}
+	for round := 0; round < rounds; round++ {
+		r := newMem(true)
+		sfx := strconv.Itoa(round)
+		var blobs []bl
+		for _, name := range []string{"config-", "layer-one-", "layer-two-"} {
+			data := []byte(name + sfx)
+			blobs = append(blobs, bl{data, pushBlobOK(r, "a", data)})
+		}
+		other := []byte("layer-of-B-" + sfx)
+		otherDesc := pushBlobOK(r, "a", other)
+		bd := func(d ociregistry.Descriptor) ociregistry.Descriptor {
+			return descJSON(d.MediaType, string(d.Digest), d.Size)
+		}
+		mA := mustJSON(map[string]any{"schemaVersion": 2, "mediaType": img, "config": bd(blobs[0].desc),
+			"layers": []ociregistry.Descriptor{bd(blobs[1].desc), bd(blobs[2].desc)}})
+		mB := mustJSON(map[string]any{"schemaVersion": 2, "mediaType": img, "config": bd(blobs[0].desc),
+			"layers": []ociregistry.Descriptor{bd(otherDesc)}})
+		descA, err := r.PushManifest(ctx, "a", "v1", mA, img)
+		if err != nil {
+			return "setup failed: " + errClass(err)
+		}
+		if string(descA.Digest) != sha256Digest(mA) || descA.MediaType != img || descA.Size != int64(len(mA)) {
+			return "setup failed: descriptor of A"
+		}
+		digB := ociregistry.Digest(sha256Digest(mB))
+
+		var first atomic.Value
+		fail := func(format string, args ...any) { first.CompareAndSwap(nil, fmt.Sprintf(format, args...)) }
+		// the reads the property is about; `who` says when they were made
+		checkReads := func(who string) {
+			d, err := r.ResolveTag(ctx, "a", "v1")
+			if err != nil {
+				fail("tag-moved: %s: ResolveTag v1 failed (%s)", who, errClass(err))
+			} else if d.Digest != descA.Digest || d.MediaType != descA.MediaType || d.Size != descA.Size {
+				fail("tag-moved: %s: ResolveTag v1 = %s %s %d, was bound to %s %s %d", who, d.Digest, d.MediaType, d.Size, descA.Digest, descA.MediaType, descA.Size)
+			}
+			rd, err := r.GetTag(ctx, "a", "v1")
+			if err != nil {
+				fail("tag-moved: %s: GetTag v1 failed (%s)", who, errClass(err))
+			} else {
+				d := rd.Descriptor()
+				data, rerr := io.ReadAll(rd)
+				rd.Close()
+				if rerr != nil || d.Digest != descA.Digest || d.MediaType != descA.MediaType || !bytes.Equal(data, mA) {
+					fail("tag-moved: %s: GetTag v1 = %s %s with %d bytes (same bytes: %v), was bound to %s %s", who, d.Digest, d.MediaType, len(data), bytes.Equal(data, mA), descA.Digest, descA.MediaType)
+				}
+			}
+			rd, err = r.GetManifest(ctx, "a", descA.Digest)
+			if err != nil {
+				fail("tagged-content-lost: %s: GetManifest of the manifest v1 points at failed (%s)", who, errClass(err))
+			} else {
+				data, _ := io.ReadAll(rd)
+				rd.Close()
+				if !bytes.Equal(data, mA) {
+					fail("tagged-content-lost: %s: the manifest v1 points at has other bytes", who)
+				}
+			}
+			for i, b := range blobs {
+				rd, err := r.GetBlob(ctx, "a", b.desc.Digest)
+				if err != nil {
+					fail("tagged-content-lost: %s: GetBlob of blob %d referenced by v1's manifest failed (%s)", who, i, errClass(err))
+					continue
+				}
+				data, _ := io.ReadAll(rd)
+				rd.Close()
+				if !bytes.Equal(data, b.data) {
+					fail("tagged-content-lost: %s: blob %d referenced by v1's manifest has other bytes", who, i)
+				}
+			}
+		}
+
+		var stop atomic.Bool
+		var rwg, awg sync.WaitGroup
+		start := make(chan struct{})
+		for i := 0; i < readers; i++ {
+			rwg.Add(1)
+			go func() {
+				defer rwg.Done()
+				<-start
+				for !stop.Load() {
+					checkReads("reader")
+				}
+			}()
+		}
+		const nAttacks = 12
+		for i := 0; i < attackers; i++ {
+			awg.Add(1)
+			go func(i int) {
+				defer awg.Done()
+				rng := NewRNG(seed + uint64(round)*1000003 + uint64(i)*7919)
+				<-start
+				for pass := 0; pass < 2; pass++ {
+					for _, k := range rng.Perm(nAttacks) {
+						switch k {
+						case 0: // move the tag
+							if _, err := r.PushManifest(ctx, "a", "v1", mB, img); err == nil {
+								fail("tag-moved: PushManifest of other content under the bound tag v1 accepted")
+							}
+						case 1: // the same content again: allowed, answers the descriptor the tag is bound to
+							d, err := r.PushManifest(ctx, "a", "v1", mA, img)
+							if err != nil {
+								fail("not-linearizable: PushManifest of the content v1 is bound to, under v1, refused (%s)", errClass(err))
+							} else if d.Digest != descA.Digest || d.MediaType != descA.MediaType {
+								fail("tag-moved: PushManifest of the same content under v1 answered %s %s", d.Digest, d.MediaType)
+							}
+						case 2:
+							if err := r.DeleteTag(ctx, "a", "v1"); err == nil {
+								fail("tag-moved: DeleteTag v1 accepted")
+							}
+						case 3:
+							if err := r.DeleteManifest(ctx, "a", descA.Digest); err == nil {
+								fail("tagged-content-lost: DeleteManifest of the manifest v1 points at accepted")
+							}
+						case 4, 5, 6:
+							if err := r.DeleteBlob(ctx, "a", blobs[k-4].desc.Digest); err == nil {
+								fail("tagged-content-lost: DeleteBlob of blob %d referenced by v1's manifest accepted", k-4)
+							}
+						case 7: // B untagged, and deleted again (nothing protects it unless another attacker has tagged it)
+							r.PushManifest(ctx, "a", "", mB, img)
+							r.DeleteManifest(ctx, "a", digB)
+						case 8: // B under a tag of its own (whoever comes first binds it)
+							r.PushManifest(ctx, "a", "v2-"+strconv.Itoa(rng.Intn(2)), mB, img)
+						case 9: // the tagged bytes under another media type, untagged (F19): must not change what v1 means
+							r.PushManifest(ctx, "a", "", mA, mtOpaque)
+						case 10: // a chunked upload of a layer's own bytes: Commit is two critical sections
+							b := blobs[1+rng.Intn(2)]
+							if w, err := r.PushBlobChunked(ctx, "a", 0); err == nil {
+								w.Write(b.data[:len(b.data)/2])
+								w.Write(b.data[len(b.data)/2:])
+								w.Commit(b.desc.Digest)
+								w.Close()
+							}
+						case 11: // a chunked upload of fresh bytes, deleted again (unreferenced)
+							data := []byte("fresh-" + sfx + "-" + strconv.Itoa(i) + "-" + strconv.Itoa(pass))
+							dg := ociregistry.Digest(sha256Digest(data))
+							if w, err := r.PushBlobChunked(ctx, "a", 0); err == nil {
+								w.Write(data)
+								w.Commit(dg)
+								w.Close()
+							}
+							r.DeleteBlob(ctx, "a", dg)
+							r.DeleteBlob(ctx, "a", otherDesc.Digest)
+						}
+					}
+				}
+			}(i)
+		}
+		close(start)
+		awg.Wait()
+		stop.Store(true)
+		rwg.Wait()
+		checkReads("at the end")
+		if v := first.Load(); v != nil {
+			return v.(string)
+		}
+	}
+	return "ok"
+}
+
 // ---- generation ----
 
 func (*c08) Gen(rng *RNG, tier string) []Case {
@@ -650,6 +832,9 @@ func (*c08) Gen(rng *RNG, tier string) []Case {
 	cases = append(cases, Case{Tag: "newid", Lines: []string{fmt.Sprintf("conc newid %d 4", sr*10)}})
 	cases = append(cases, Case{Tag: "dualcommit", Lines: []string{fmt.Sprintf("conc dualcommit %d", sr*10)}})
 	cases = append(cases, Case{Tag: "selfcopy", Lines: []string{"conc selfcopy 50"}})
+	for _, g := range [][2]int{{2, 2}, {4, 3}, {8, 2}} {
+		cases = append(cases, Case{Tag: "immtags", Lines: []string{fmt.Sprintf("conc immtags %d %d %d %d", sr/2, g[0], g[1], rng.Intn(1<<30))}})
+	}
 	for _, w := range []int{1, 2, 4} {
 		cases = append(cases, Case{Tag: "recommit", Lines: []string{fmt.Sprintf("conc recommit %d %d", sr, w)}})
 	}
@@ -773,13 +958,17 @@ func (*c08) Oracle(c Case, impl []string) []Failure {
 			class = "conc-committed-blob-mismatch"
 		case strings.HasPrefix(got, "not-linearizable"):
 			class = "conc-not-linearizable:" + t[1]
+		case strings.HasPrefix(got, "tag-moved"):
+			class = "conc-tag-moved:" + t[1]
+		case strings.HasPrefix(got, "tagged-content-lost"):
+			class = "conc-tagged-content-lost:" + t[1]
 		case got == "panic":
 			class = "conc-panic:" + t[1]
 		}
 		fs = append(fs, Failure{Class: class, Oracle: "concurrent_" + t[1], Index: i, Expected: "ok", Observed: got, Detail: lastPanic})
 	}
 	// data races reported by the runtime during this process
-	if len(c.Lines) > 0 && c.Tag == "mixed" || c.Tag == "session" || c.Tag == "tagswap" || c.Tag == "recommit" || c.Tag == "selfcopy" {
+	if len(c.Lines) > 0 && c.Tag == "mixed" || c.Tag == "session" || c.Tag == "tagswap" || c.Tag == "recommit" || c.Tag == "selfcopy" || c.Tag == "immtags" {
 		fs = append(fs, c08RaceReports(c)...)
 	}
 	return fs
